@@ -238,7 +238,31 @@ class Array(Base):
     def _extract_units(self, args):
         return tuple(self._maybe_unit(a) for a in args)
 
+    def _convert_to_common_unit(self, args):
+        """
+        Convert all (non-boolean) Arrays and Quantities in args to the unit of the
+        first one, so that their raw values can be combined by a numpy function.
+        """
+        unit = None
+
+        def convert(arg):
+            nonlocal unit
+            if isinstance(arg, (tuple, list)):
+                return type(arg)(convert(a) for a in arg)
+            if isinstance(arg, Quantity):
+                arg = self.__class__(arg)
+            if isinstance(arg, self.__class__) and arg.dtype != bool:
+                if unit is None:
+                    unit = arg.unit
+                return arg.to(unit)
+            return arg
+
+        return tuple(convert(a) for a in args), unit
+
     def _wrap_numpy(self, func, *args, **kwargs):
+        common_unit = None
+        if func.__name__ not in APPLY_OP_TO_UNIT:
+            args, common_unit = self._convert_to_common_unit(args)
         if isinstance(args[0], (tuple, list)):
             array_args = (
                 self._extract_arrays_from_args(args[0]),
@@ -255,7 +279,7 @@ class Array(Base):
                     **{key: a for key, a in kwargs.items() if key != "out"},
                 ).units
             else:
-                unit = self.unit
+                unit = self.unit if common_unit is None else common_unit
 
         if "out" in kwargs:
             kwargs["out"][0].unit = unit
